@@ -56,7 +56,11 @@ def generate(gen, tier):
         si = [A('structure'), cfg_i, inner]
         lines += [op('spec', [A('transform'), s, 1, 1]), op('spec', [A('transform'), s, 0, 2, si]),
                   op('spec', [A('compose'), s, si]), op('repr', [A('compose'), s, si]),
-                  op('spec', [A('transform'), s, rng.choice([2, 3, 4, 5]), rng.choice([0, 1, 3, 4])])]
+                  op('spec', [A('transform'), s, rng.choice([2, 3, 4, 5]), rng.choice([0, 1, 3, 4])]),
+                  op('is_enc', s), op('is_enc', [A('compose'), s, si]), op('is_enc', [A('transform'), s, 0, 2, si]),
+                  op('is_enc', [A('onelevel'), s])]
+        if nkids:
+            lines.append(op('is_enc', [A('child'), s, rng.randrange(nkids)]))
         if not isinstance(t, Atom) and t[0] not in ('L',):
             kids = [[A('child'), s, j] for j in range(nkids)]
             coll = coll_of(t, cfg, kids)
